@@ -168,9 +168,10 @@ func layFiller(it *layItem) string {
 const layTypes = `package p
 
 type LayA struct {
-	X    int
-	Y    string
-	U_Id int
+	X     int
+	Y     string
+	U_Id  int
+	Größe int
 }
 
 type LayB struct {
@@ -178,6 +179,7 @@ type LayB struct {
 	Y    string
 	U_Id int
 	V_2  int
+	Höhe int
 }
 
 type A struct{ X int }
@@ -348,6 +350,8 @@ func layRender(l *layCase) map[string]string {
 				if selected && !it.Short && k == len(ms)-1 && it.Mdoc {
 					// field names with an underscore are ordinary Go identifiers
 					sb.WriteString("\t// :map X V_2\n\t// :literal U_Id 7\n")
+					// and so are names with letters beyond ASCII
+					sb.WriteString("\t// :map Größe Höhe\n")
 				}
 				fmt.Fprintf(&sb, "\t%s%s\n", sig(m), tr)
 			}
